@@ -710,7 +710,7 @@ impl Scenario for Bits {
     fn runs(&self, tier: Tier) -> u64 {
         match tier {
             Tier::Quick => 400000,
-            Tier::Thorough => 40000000,
+            Tier::Thorough => 16000000,
         }
     }
     fn declare(&self, cov: &mut Cov) {
